@@ -1015,7 +1015,7 @@ func partD(run *ev.Run) {
 		sc, herr, _, _, _ := session(m)
 		if sc != nil {
 			run.Outcome("rawpeer:unauthenticated-accepted")
-			run.Violation("handshake-accepts-unauthenticated-key:"+m.Name, fmt.Sprintf("peer %+v was accepted; RemotePubKey=%x", m, []byte(sc.RemotePubKey())), m)
+			run.Violation("handshake-accepts-unauthenticated-key."+m.Name, fmt.Sprintf("peer %+v was accepted; RemotePubKey=%x", m, []byte(sc.RemotePubKey())), m)
 		} else {
 			_ = herr
 			run.Outcome("rawpeer:" + m.Name + "-rejected")
